@@ -274,3 +274,110 @@ def member_instance(h):
             ok=(once('SetReducer') and by['SetReducer'][0][0][0] is vals['_reducer']) if red else ('SetReducer' not in by))
     h.check('raw-objective-and-extra-arguments-handed-over', 'ok',
             ok=once('SetObjective') and by['SetObjective'][0][0][0] is raw and by['SetObjective'][0][0][1] is extra)
+
+
+@contract('C09/ensemble.__init_allSolvers', ['C09'], ENS + '.__init_allSolvers', native=False)
+def init_members(h):
+    """exactly as many members as slots: every empty slot gets its OWN deep copy of the nested solver with its own id
+    (slot index + ensemble id), members that already exist are kept"""
+    if not h.is_sym():
+        h.unsupported('symbolic only')
+    k = h.choice('slots', [1, 2, 3])
+    existing = h.choice('already_filled_slot', [None, 0]) if k > 1 else None
+    ens_id = h.choice('ensemble_id', [None, 4])
+    proto = h.obj(None, population=h.clist([h.vec('p', 2)]), id=None, _fcalls=h.clist([0]))
+    old = h.obj(None, population=h.clist([h.vec('q', 2)]), id=77, _fcalls=h.clist([5]))
+    slots = [None] * k
+    if existing is not None:
+        slots[existing] = old
+    s = h.obj(ENS, _allSolvers=h.clist(slots), id=ens_id)
+    h.set_summaries({(E, 'AbstractEnsembleSolver.__get_solver_instance'): lambda I, c, a, kw: proto})
+    r = h.call(h.getattr(s, '_AbstractEnsembleSolver__init_allSolvers'))
+    at = ens_id or 0
+    conj, env = ['len(r) == %d' % k], dict(r=r, proto=proto, old=old)
+    for i in range(k):
+        if existing == i:
+            conj.append('same(r[%d], old)' % i)
+        else:
+            conj.append('not same(r[%d], proto) and r[%d].id == %d and not same(r[%d].population, proto.population) '
+                        'and not same(r[%d]._fcalls, proto._fcalls)' % (i, i, i + at, i, i))
+            conj += ['not same(r[%d], r[%d])' % (i, j) for j in range(i)]
+    h.check('one-independent-member-per-slot-with-its-own-id', ' and '.join(conj), **env)
+    h.check('the-list-returned-is-the-ensembles-own-list', 'same(r, s._allSolvers)', r=r, s=s)
+
+
+def _ens_run(h, method):
+    """the member hand-off of _Step / _Solve (twins): on a NEW ensemble member i is started at the i-th point of
+    _InitialPoints() (and gets its strict ranges re-applied in the ENSEMBLE's clip mode); on an ensemble that has run,
+    no member is re-initialised; every member is advanced exactly once through the map with the caller's callback; the
+    results go to __update_allSolvers and then __update_state"""
+    if not h.is_sym():
+        h.unsupported('symbolic only')
+    new = h.choice('ensemble_is_new', [True, False])
+    strict = h.choice('members_use_strict_ranges', [False, True])
+    pts = [h.vec('start0', 2), h.vec('start1', 2)]
+    log = []
+    members = []
+    for i in range(2):
+        members.append(h.obj(None, id=i, _useStrictRange=strict, _strictMin=h.vec('mn%d' % i, 2), _strictMax=h.vec('mx%d' % i, 2),
+                             _useTightRange=None, _useClipRange='member-clip-mode', _live=True, _cost=h.tup(None, h.fn('RAW', ret='real'), None),
+                             _stepmon=None, _evalmon=None))
+    cb = h.fn('CALLBACK', ret='none')
+    cost = h.fn('COST', ret='real')
+    s = h.obj(ENS, _allSolvers=h.clist([None, None] if new else list(members)), _useClipRange='ensemble-clip-mode', _mapconfig=h.dict(),
+              _evalmon=None, _stepmon=None, _cost=h.tup(None, cost, None), _live=True, id=None)
+
+    def member_method(name):
+        def f(I, c, args, kwargs):
+            log.append((name, args[0], list(args[1:]), dict(kwargs)))
+            return False if name == 'Terminated' else None
+        return f
+
+    class _MemberCls:
+        pass
+    # members are plain objects: give them the methods the workers call, as abstract functions bound by hand
+    for m in members:
+        for nm in ('SetInitialPoints', 'SetStrictRanges', 'Terminated', 'Step', 'Solve', 'SetObjective'):
+            h.set_field(m, nm, h.fn('%s_%d' % (nm, h.field(m, 'id')),
+                                    sym=(lambda nm_, m_: (lambda H, I, args, kwargs: (log.append((nm_, m_, list(args), dict(kwargs))), False if nm_ == 'Terminated' else None)[1]))(nm, m)))
+
+    def the_map(H, I, args, kwargs):
+        f = args[0]
+        cols = [I.models.concrete_iter(I, a) for a in args[1:]]
+        return I.st.alloc('clist', [I.call(f, list(row), {}) for row in zip(*cols)])
+    h.set_field(s, '_map', h.fn('MAP', sym=the_map))
+    order = []
+    A_ = 'mystic/abstract_solver.py'
+    h.set_summaries({
+        (E, 'AbstractEnsembleSolver._process_inputs'): lambda I, c, a, k: I.st.alloc('dict', {'callback': cb, 'disp': False}),
+        (E, 'AbstractEnsembleSolver._InitialPoints'): lambda I, c, a, k: (order.append('points'), I.st.alloc('clist', list(pts)))[1],
+        (E, 'AbstractEnsembleSolver.__init_allSolvers'): lambda I, c, a, k: (order.append('members'), I.st.heap.__setitem__(I.st.heap[a[0]]['_allSolvers'], list(members)), I.st.heap[a[0]]['_allSolvers'])[2],
+        (E, 'AbstractEnsembleSolver.__update_allSolvers'): lambda I, c, a, k: order.append('collect'),
+        (E, 'AbstractEnsembleSolver.__update_state'): lambda I, c, a, k: order.append('reduce'),
+        (E, 'AbstractEnsembleSolver.Terminated'): lambda I, c, a, k: '',
+        (A_, 'AbstractSolver._bootstrap_objective'): lambda I, c, a, k: cost,
+        (A_, 'AbstractSolver.__save_state'): lambda I, c, a, k: None,
+        ('mystic/tools.py', 'isNull'): lambda I, c, a, k: True,
+    })
+    if method == '_Step':
+        h.call(h.getattr(s, '_Step'), cost, None, callback=cb)
+    else:
+        h.call(h.getattr(s, '_Solve'), cost, None, callback=cb, disp=False)
+    adv = 'Step' if method == '_Step' else 'Solve'
+    inits = [(m, a) for (nm, m, a, k) in log if nm == 'SetInitialPoints']
+    ranges = [(m, a, k) for (nm, m, a, k) in log if nm == 'SetStrictRanges']
+    advs = [(m, a, k) for (nm, m, a, k) in log if nm == adv]
+    if new:
+        h.check('C09/each-member-started-at-its-own-initial-point', 'ok',
+                ok=(len(inits) == 2 and all(inits[i][0] is members[i] and inits[i][1][0] is pts[i] for i in range(2))))
+        h.check('C07/ranges-re-applied-in-the-ensembles-clip-mode-in-both-run-modes', 'ok',
+                ok=(len(ranges) == (2 if strict else 0) and all(r[2].get('clip') == 'ensemble-clip-mode' for r in ranges)))
+    else:
+        h.check('C09/members-of-a-running-ensemble-are-not-re-initialised', 'ok', ok=(not inits and not ranges))
+    h.check('C09/every-member-advanced-once-with-the-callers-callback', 'ok',
+            ok=(len(advs) == 2 and [a[0] for a in advs] == members and all(a[2].get('callback') is cb for a in advs)))
+    h.check('C09/results-collected-then-reduced-to-the-best-member', 'ok', ok=(order[-2:] == ['collect', 'reduce']))
+
+
+contract('C09/ensemble._Step/member-hand-off', ['C09', 'C07'], ENS + '._Step', native=False)(lambda h: _ens_run(h, '_Step'))
+contract('C09/ensemble._Solve/member-hand-off', ['C09', 'C07'], ENS + '._Solve', native=False)(lambda h: _ens_run(h, '_Solve'))
